@@ -295,11 +295,60 @@ func Strip(v ssa.Value) ssa.Value {
 			} else {
 				return v
 			}
+		case *ssa.UnOp:
+			// load of an address-taken local that is stored exactly once
+			// (`x := f()` whose address escapes to a method call): the load
+			// yields the stored value.
+			if x.Op != token.MUL {
+				return v
+			}
+			al, ok := x.X.(*ssa.Alloc)
+			if !ok {
+				return v
+			}
+			sv := SingleStore(al)
+			if sv == nil {
+				return v
+			}
+			v = sv
 		default:
 			return v
 		}
 	}
 	return v
+}
+
+// SingleStore returns the value stored into a local Alloc when there is
+// exactly one store to it (and no store through derived addresses), else nil.
+func SingleStore(al *ssa.Alloc) ssa.Value {
+	var val ssa.Value
+	n := 0
+	for _, ref := range *al.Referrers() {
+		switch r := ref.(type) {
+		case *ssa.Store:
+			if r.Addr == al {
+				n++
+				val = r.Val
+			}
+		case *ssa.FieldAddr, *ssa.IndexAddr:
+			// partial writes through derived addresses would change the value
+			var refs *[]ssa.Instruction
+			if fa, ok := r.(*ssa.FieldAddr); ok {
+				refs = fa.Referrers()
+			} else {
+				refs = r.(*ssa.IndexAddr).Referrers()
+			}
+			for _, r2 := range *refs {
+				if st, ok := r2.(*ssa.Store); ok && st.Addr == r.(ssa.Value) {
+					return nil
+				}
+			}
+		}
+	}
+	if n == 1 {
+		return val
+	}
+	return nil
 }
 
 // CallOf returns the call instruction a value originates from (directly or
@@ -548,6 +597,8 @@ type Reach struct {
 	Cut     map[Edge]bool
 	Barrier map[ssa.Instruction]bool // execution does not continue past these
 
+	via    map[Edge]bool
+	work   []Edge
 	entry  map[*ssa.BasicBlock]bool // block entered at its first instruction
 	from   map[*ssa.BasicBlock]Edge // how the block was first entered
 	start  ssa.Instruction
@@ -571,14 +622,15 @@ func (r *Reach) CutEdges(es []Edge) *Reach {
 func (r *Reach) Run(start ssa.Instruction) *Reach {
 	r.entry = map[*ssa.BasicBlock]bool{}
 	r.from = map[*ssa.BasicBlock]Edge{}
+	r.via = map[Edge]bool{}
 	r.start = start
-	var work []*ssa.BasicBlock
 	if start == nil {
 		if len(r.Fn.Blocks) == 0 {
 			return r
 		}
-		r.entry[r.Fn.Blocks[0]] = true
-		work = append(work, r.Fn.Blocks[0])
+		b0 := r.Fn.Blocks[0]
+		r.entry[b0] = true
+		r.leave(b0, 0, -1)
 	} else {
 		b := start.Block()
 		r.startB = b
@@ -587,38 +639,124 @@ func (r *Reach) Run(start ssa.Instruction) *Reach {
 				r.startI = i
 			}
 		}
-		if r.tailOpen(b, r.startI+1) {
-			for i, s := range b.Succs {
-				if r.Cut[Edge{b, i}] {
-					continue
-				}
-				if !r.entry[s] {
-					r.entry[s] = true
-					r.from[s] = Edge{b, i}
-					work = append(work, s)
-				}
-			}
-		}
+		r.leave(b, r.startI+1, -1)
 	}
-	for len(work) > 0 {
-		b := work[len(work)-1]
-		work = work[:len(work)-1]
-		if !r.tailOpen(b, 0) {
-			continue
-		}
-		for i, s := range b.Succs {
-			if r.Cut[Edge{b, i}] {
-				continue
-			}
-			if !r.entry[s] {
-				r.entry[s] = true
-				r.from[s] = Edge{b, i}
-				work = append(work, s)
-			}
-		}
-	}
+	r.drain()
 	return r
 }
+
+// RunFromBlock computes reachability starting at the first instruction of b
+// (b itself counts as entered only if it is re-entered through an edge).
+func (r *Reach) RunFromBlock(b *ssa.BasicBlock) *Reach {
+	r.entry = map[*ssa.BasicBlock]bool{}
+	r.from = map[*ssa.BasicBlock]Edge{}
+	r.via = map[Edge]bool{}
+	r.start = nil
+	r.leave(b, 0, -1)
+	r.drain()
+	return r
+}
+
+// leave propagates out of block b (executed from instruction index `from`),
+// having entered it through predecessor index predIdx (-1: unknown).  Flag
+// idiom: when b's terminating If tests a boolean phi of b whose incoming value
+// on the entering edge is a constant, only the matching successor is feasible
+// (`valid := false … if !valid {return err}`).
+func (r *Reach) leave(b *ssa.BasicBlock, from int, predIdx int) {
+	if !r.tailOpen(b, from) {
+		return
+	}
+	only := -1
+	if predIdx >= 0 {
+		only = flagSucc(b, predIdx)
+	}
+	for i, s := range b.Succs {
+		if r.Cut[Edge{b, i}] || (only >= 0 && i != only) {
+			continue
+		}
+		e := Edge{b, i}
+		if r.via[e] {
+			continue
+		}
+		r.via[e] = true
+		if !r.entry[s] {
+			r.entry[s] = true
+			r.from[s] = e
+		}
+		r.work = append(r.work, e)
+	}
+}
+
+func (r *Reach) drain() {
+	for len(r.work) > 0 {
+		e := r.work[len(r.work)-1]
+		r.work = r.work[:len(r.work)-1]
+		s := e.To()
+		pi := -1
+		for i, p := range s.Preds {
+			if p == e.From {
+				pi = i
+				break
+			}
+		}
+		r.leave(s, 0, pi)
+	}
+}
+
+// flagSucc: if block b ends in an If whose condition is decided by a boolean
+// phi of b with a constant on predecessor edge predIdx, the index of the only
+// feasible successor; else -1.
+func flagSucc(b *ssa.BasicBlock, predIdx int) int {
+	if len(b.Instrs) == 0 {
+		return -1
+	}
+	ifi, ok := b.Instrs[len(b.Instrs)-1].(*ssa.If)
+	if !ok {
+		return -1
+	}
+	v := ifi.Cond
+	neg := false
+	for {
+		if u, ok := v.(*ssa.UnOp); ok && u.Op == token.NOT {
+			v, neg = u.X, !neg
+			continue
+		}
+		if bo, ok := v.(*ssa.BinOp); ok && (bo.Op == token.EQL || bo.Op == token.NEQ) {
+			if k, isk := ConstBool(bo.Y); isk {
+				// (x == k): true iff x==k ; (x != k)
+				if (bo.Op == token.EQL) != k {
+					neg = !neg
+				}
+				v = bo.X
+				continue
+			}
+		}
+		break
+	}
+	phi, ok := v.(*ssa.Phi)
+	if !ok || phi.Block() != b || predIdx >= len(phi.Edges) {
+		return -1
+	}
+	// only side-effect-free instructions may precede the If in b
+	for _, in := range b.Instrs[:len(b.Instrs)-1] {
+		switch in.(type) {
+		case *ssa.Phi, *ssa.BinOp, *ssa.UnOp:
+		default:
+			return -1
+		}
+	}
+	k, isk := ConstBool(phi.Edges[predIdx])
+	if !isk {
+		return -1
+	}
+	if k != neg {
+		return 0
+	}
+	return 1
+}
+
+// BlockEntered reports whether b was entered through some edge.
+func (r *Reach) BlockEntered(b *ssa.BasicBlock) bool { return r.entry[b] }
 
 // tailOpen: no barrier in b.Instrs[from:].
 func (r *Reach) tailOpen(b *ssa.BasicBlock, from int) bool {
